@@ -19,9 +19,12 @@ MANIFEST = {
                 "form x blank entries, and all client addresses of both widths: presentation independence (IPv4 vs "
                 "IPv4-mapped), empty list admits all, IPv4 entries never admit genuine IPv6 clients, single address admits "
                 "exactly itself, host bits are irrelevant, shorter prefixes admit more, adding an entry never locks out. "
-                "The same operators at widths 32/128 emit lists (prefix lengths {0,1,7,8,9,31,32} / {0,1,63,64,96,104,127,"
-                "128}, spaces, mapped-form entries) with clients at each prefix boundary +-1 bit in IPv4, mapped and IPv6 "
-                "form, replayed on parseAllowIps, Namespace.IsClientIPAllowed and Session.IsAllowConnect.",
+                "The same operators at widths 32/128 emit lists: every entry alone for the prefix lengths at both ends, "
+                "around the byte boundaries, at the other family's width (IPv6 /31../33, mapped /95../97) and seeded random ones "
+                "(thorough: every prefix length 0..32 and 0..128), pairs over {0,8,31,32} / {0,64,96,104,128} (thorough "
+                "{0,1,7,8,9,31,32} / {0,1,63,64,96,104,127,128}), spaces, mapped-form entries, with clients at each prefix "
+                "boundary +-1 bit in IPv4, mapped and IPv6 form, replayed on parseAllowIps, Namespace.IsClientIPAllowed and "
+                "Session.IsAllowConnect.",
         "design_ref": "DESIGN.md section 5 C35, section 4.1 Auth",
     },
     "level_note": "Whether an IPv4 client lies in an IPv6 block shorter than /96 that covers the mapped range (e.g. ::/0) is "
@@ -41,6 +44,8 @@ CONSTANTS
   Bases6 <- %(b6)s
   PLens4 = {%(p4)s}
   PLens6 = {%(p6)s}
+  PairLens4 = {%(q4)s}
+  PairLens6 = {%(q6)s}
   MaxEntries = %(maxe)d
   CheckAll = %(all)s
   EmitCases = %(emit)s
@@ -71,13 +76,14 @@ def ints(xs):
 
 def small_cfg(w6, mz, maxe):
     return CFG % {"w4": 2, "w6": w6, "mz": mz, "b4": "All4", "b6": "All6", "p4": ints(range(0, 3)),
-                  "p6": ints(range(0, w6 + 1)), "maxe": maxe, "all": "TRUE", "emit": "FALSE",
+                  "p6": ints(range(0, w6 + 1)), "q4": ints(range(0, 3)), "q6": ints(range(0, w6 + 1)), "maxe": maxe, "all": "TRUE", "emit": "FALSE",
                   "invs": "TypeOK PresentationIndependent EmptyAllowsAll FamilySeparation EntryLaws Emit",
                   "props": "PROPERTY Monotone"}
 
 
-def full_cfg(p4, p6, maxe):
-    return CFG % {"w4": 32, "w6": 128, "mz": 80, "b4": "XB4", "b6": "XB6", "p4": ints(p4), "p6": ints(p6),
+def full_cfg(p4, p6, maxe, q4=None, q6=None):
+    return CFG % {"w4": 32, "w6": 128, "mz": 80, "b4": "XB4", "b6": "XB6", "p4": ints(sorted(set(p4))), "p6": ints(sorted(set(p6))),
+                  "q4": ints(sorted(set(q4 if q4 is not None else p4))), "q6": ints(sorted(set(q6 if q6 is not None else p6))),
                   "maxe": maxe, "all": "FALSE", "emit": "TRUE",
                   "invs": "TypeOK PresentationIndependent Emit", "props": ""}
 
@@ -115,26 +121,33 @@ def run(ctx):
     # 2. full-width cases
     a4 = [rng.getrandbits(32) | (1 << 31), rng.getrandbits(31)]
     a6 = [rng.getrandbits(128) | (1 << 125), (0xffff << 32) | a4[0]]
-    p4 = [0, 1, 7, 8, 9, 31, 32]
-    p6 = [0, 1, 63, 64, 96, 104, 127, 128]
-    plans = [(a4, a6, p4, p6, 2)]
+    # prefix lengths: both ends, byte boundaries +-1, the other family's width (an IPv6 /32, an IPv4-mapped /96 ..), and
+    # seeded random ones; every entry is a list of its own, lists of two entries are built from the pair lengths
+    pair4 = [0, 1, 7, 8, 9, 31, 32]
+    pair6 = [0, 1, 63, 64, 96, 104, 127, 128]
     if ctx.thorough:
+        plans = [(a4, a6, range(0, 33), range(0, 129), pair4, pair6, 2)]
         b4 = [rng.getrandbits(32) for _ in range(2)]
-        plans.append((b4, [rng.getrandbits(128), (0xffff << 32) | b4[1], rng.getrandbits(64)], p4, p6, 2))
-        plans.append(([a4[1]], [a6[0], a6[1]], [0, 8, 31], [0, 64, 96, 104, 128], 3))
-        plans.append(([a4[0]], [a6[1]], [1, 9, 32], [1, 63, 127], 4))
+        plans.append((b4, [rng.getrandbits(128), (0xffff << 32) | b4[1], rng.getrandbits(64)], pair4, pair6, pair4, pair6, 2))
+        plans.append(([a4[1]], [a6[0], a6[1]], [0, 8, 31], [0, 64, 96, 104, 128], None, None, 3))
+        plans.append(([a4[0]], [a6[1]], [1, 9, 32], [1, 32, 127], None, None, 4))
+    else:
+        p4 = [0, 1, 7, 8, 9, 15, 16, 17, 24, 31, 32] + [rng.randrange(2, 31) for _ in range(2)]
+        p6 = [0, 1, 8, 31, 32, 33, 48, 63, 64, 65, 95, 96, 97, 104, 120, 127, 128] + [rng.randrange(2, 127) for _ in range(3)]
+        plans = [(a4, a6, p4, p6, [0, 8, 31, 32], [0, 64, 96, 104, 128], 2)]
     cases = []
-    for (x4, x6, q4, q6, maxe) in plans:
+    for (x4, x6, l4, l6, pl4, pl6, maxe) in plans:
         xmod = XMOD % (_wire.tla_set([bits(a, 32) for a in x4]), _wire.tla_set([bits(a, 128) for a in x6]))
         r = ctx.tlc("Auth_allow_x", "al_gen.cfg", workers=1, timeout=1500,
-                    extra_files={"Auth_allow_x.tla": xmod, "al_gen.cfg": full_cfg(q4, q6, maxe)},
+                    extra_files={"Auth_allow_x.tla": xmod, "al_gen.cfg": full_cfg(l4, l6, maxe, pl4, pl6)},
                     label="emit full-width lists (<= %d entries) with boundary clients" % maxe)
         if not r.cases:
             raise vlib.Inconclusive("TLC emitted no allow-list cases")
         ctx.log("emitted", len(r.cases), "lists", "%.1fs" % r.wall)
         cases += r.cases
     known = vlib.known_replay_cases(ctx.pid)
-    good = next(c for c in cases if len(c["list"]) == 1 and c["list"][0]["fam"] == 4 and c["list"][0]["plen"] == 8)
+    good = next(c for c in cases if len(c["list"]) == 1 and c["list"][0]["fam"] == 4 and c["list"][0]["plen"] == 8
+                and c["list"][0]["cidr"])
     res, summ = _wire.replay(ctx, PKG, HARNESS, RUN, cases + known,
                              selftests=[("corrupted_verdict_detected", good, corrupt)])
     ctx.log("replayed", summ)
